@@ -352,6 +352,29 @@ def _seed_kwargs(form, s):
     raise ValueError(form)
 
 
+# MODULE-LEVEL reporter functions: the very same function objects serve every script model of a process (the prior in-process
+# history and the measured model), and they DRAW from the model's generators - whatever a library keeps per function at module
+# level (validation caches, memoisation) would shift the random stream of a later model
+def _rep_sample(m):
+    return len(m.agents.shuffle().select(at_most=5))
+
+
+def _rep_rng(m):
+    return int(m.rng.integers(1000))
+
+
+def _rep_scaled(m, k):
+    return m.random.randrange(k)
+
+
+def _arep_draw(a):
+    return a.random.randrange(100)
+
+
+def _arep_rng(a):
+    return int(a.rng.integers(50))
+
+
 def make_shared(spec):
     """the externally built MUTABLE objects a script model is given: a networkx graph (discrete_space.Network / legacy
     NetworkGrid), PropertyLayer objects (legacy grids), a list handed to create_agents, a parameter dict.  The scripts only
@@ -510,6 +533,21 @@ def build_script_model(spec, shared=None):
             elif kind == "cont":
                 self.space = XCS([[0, w], [0, h]], torus=True, random=r, n_agents=max(2, spec["n"]))
             self.populate(spec["n"])
+            if spec.get("dc"):
+                import functools
+
+                # all four model-reporter forms (function, method, attribute name, [function, args]) + functools.partial; agent
+                # reporters as attribute name and as functions - functions are module level and draw from the generators
+                self.total = 0
+                self.datacollector = mesa.DataCollector(
+                    model_reporters={"sample": _rep_sample, "np": _rep_rng, "method": self.count_marked, "attr": "total",
+                                     "listform": [_rep_scaled, [self, 7]], "partial": functools.partial(_rep_scaled, k=11)},
+                    agent_reporters={"energy": "energy", "draw": _arep_draw, "npdraw": _arep_rng} if spec["dc"] > 1 else {"energy": "energy"})
+                self.datacollector.collect(self)
+
+        def count_marked(self):
+            self.total += 1
+            return sum(1 for a in self.agents if a.mark) + self.random.randrange(3)
 
         def place(self, a):
             if cellspace:
@@ -559,6 +597,12 @@ def build_script_model(spec, shared=None):
         k = op[0]
         if k == "step":
             model.step()
+            if spec.get("dc"):
+                model.datacollector.collect(model)
+        elif k == "collect":
+            if spec.get("dc"):
+                model.datacollector.collect(model)
+                model.datacollector.collect(model)      # a second collect at the same logical time
         elif k == "shuffle_do":
             model.agents.shuffle_do("act")
         elif k == "shuffle_inplace":
@@ -2334,7 +2378,7 @@ def _gen_world(rng, big=False):
 
 def _script_spec(rng):
     OPS = ["step", "shuffle_do", "shuffle_inplace", "shuffle_copy_do", "select_frac", "select_filter", "by_type", "groupby", "sort_do",
-           "populate", "remove", "space_agents", "rand_cell", "rand_agent", "rand_empty", "np_draw", "abandon_iter", "bad_move"]
+           "populate", "remove", "space_agents", "rand_cell", "rand_agent", "rand_empty", "np_draw", "abandon_iter", "bad_move", "collect", "step"]
     kind = rng.choice(["moore", "vonneumann", "hex", "network", "network", "netgrid", "netgrid", "single", "multi", "cont", "none"])
     w, h = rng.randint(2, 5), rng.randint(2, 5)
     cap = rng.choice([None, None, 1, 2]) if kind in ("moore", "vonneumann", "hex", "network") else None
@@ -2345,7 +2389,7 @@ def _script_spec(rng):
         ops.append([k, rng.randint(1, 3)] if k == "populate" else ([k, rng.random() < 0.5] if k == "rand_empty" else [k]))
     return {"form": rng.choice(["seed", "rng-int", "rng-seq", "rng-gen", "rng-list", "seed", "rng-int", "seed-float", "seed-str", "seed-big",
                                 "seed-bool", "rng-npint", "rng-big", "rng-array"]), "seed": rng.randrange(1000), "space": kind,
-            "w": w, "h": h, "torus": rng.random() < 0.5, "capacity": cap, "n": n, "ops": ops}
+            "w": w, "h": h, "torus": rng.random() < 0.5, "capacity": cap, "n": n, "ops": ops, "dc": rng.choice([0, 1, 2, 2])}
 
 
 def _dense_spec(rng, kind=None):
@@ -2567,7 +2611,7 @@ RULE = ("model-tied 'world' histories = one mesa.Model(seed) with <= 7 agents of
         "instances with hand-written non-default constructor arguments and other models ran in the process; batches of random API scripts "
         "over 9 space kinds and 12 seed forms (seed = int, float, str, > 2^64, bool; rng = int, > 2^64, numpy int, SeedSequence, Generator, "
         "list, array) with falsy / sized-empty agents, a sub-subclass, a mixin after the framework base, abandoned iterators, rejected calls "
-        "followed by more steps, nearly full capacity-1 grids relocated under both empty-cell strategies, measured fresh and again after a "
+        "followed by more steps, DataCollectors whose model reporters (function, method, attribute, [function, args], partial) and agent reporters are module-level functions drawing from the generators, nearly full capacity-1 grids relocated under both empty-cell strategies, measured fresh and again after a "
         "prior model that was given the very same graph / PropertyLayer / list / dict objects plus an allocation churn; re-seeding replays "
         "through 11 collections derived before the reset for all 12 seed forms; the seed+rng ValueError boundary; batch_run with 1/2(/3) "
         "spawn workers and batch_run(number_processes=1) over one shared graph against pristine graphs; a USER-CODE stream, implementation + oracle only (agents in reference cycles whose constructors / steps raise and are caught, agents that create agents or remove themselves / others during do / shuffle_do / map / GroupBy.do activations, value-based __eq__ / __hash__, overridden register / deregister / remove hooks, a docstring-only subclass), each seeded model run under forced collector regimes (collector off, gc.collect() before every model step, inside every agent step, default) that must agree; a SCALE stream (radius 9-13 neighbourhood walks on 20x20 Moore and 30x30 hex spaces, 1100 agents, 260 steps, 40 models in the process, a 1030-agent model-tied world; larger in thorough).  non-trivial = a world history "
